@@ -108,7 +108,7 @@ static void c04_cycle(int shard, int nshards, const hz::Args& a, hz::Result& r) 
   const long long A3[3] = {0, 1, -1};
   std::vector<long long> Abig = {0, 1, -1, 2, -2, 1000003, -1000003};
   if (a.thorough()) { Abig.push_back(1LL << 31); Abig.push_back(-(1LL << 31)); Abig.push_back(97); Abig.push_back(-97); }
-  const int kshifts[5] = {0, 1, -1, 13, -14};  // month shifts used to denormalize the day field
+  const int kshifts[9] = {0, 1, -1, -12, 12, 13, -14, -48, 4800};  // month shifts used to denormalize the day field
   for (int di = shard; di < 146097; di += nshards) {
     if ((di & 1023) == 0) { hz::begin_case(di, "C04 cycle day index " + std::to_string(di)); if (a.time_up()) { r.exhaustive = false; r.note("deadline in C04 cycle at day " + std::to_string(di)); return; } }
     i128 yy; int mo, dd;
@@ -119,7 +119,7 @@ static void c04_cycle(int shard, int nshards, const hz::Args& a, hz::Result& r) 
     for (int ti = 0; ti < 3; ++ti) {
       const int hh = tods[ti][0], mi = tods[ti][1], ss = tods[ti][2];
       // (i) small alphabet, complete product over the five carries x month-shift of the day field
-      for (int cs_ = 0; cs_ < 3; ++cs_) for (int cm = 0; cm < 3; ++cm) for (int ch = 0; ch < 3; ++ch) for (int cmo = 0; cmo < 3; ++cmo) for (int ks = 0; ks < 3; ++ks) {
+      for (int cs_ = 0; cs_ < 3; ++cs_) for (int cm = 0; cm < 3; ++cm) for (int ch = 0; ch < 3; ++ch) for (int cmo = 0; cmo < 3; ++cmo) for (int ks = 0; ks < 5; ++ks) {
         long long f[6];
         long long k = kshifts[ks];
         // day field counted from the first of month (m-k)
@@ -139,7 +139,7 @@ static void c04_cycle(int shard, int nshards, const hz::Args& a, hz::Result& r) 
       // (ii) big alphabet on the reduced base set
       if (reduced) {
         const size_t n = Abig.size();
-        for (size_t i0 = 0; i0 < n; ++i0) for (size_t i1 = 0; i1 < n; ++i1) for (size_t i2 = 0; i2 < n; ++i2) for (size_t i3 = 0; i3 < n; ++i3) for (int ks = 0; ks < 5; ++ks) {
+        for (size_t i0 = 0; i0 < n; ++i0) for (size_t i1 = 0; i1 < n; ++i1) for (size_t i2 = 0; i2 < n; ++i2) for (size_t i3 = 0; i3 < n; ++i3) for (int ks = 0; ks < 9; ++ks) {
           long long f[6];
           long long k = kshifts[ks];
           i128 mm_ = mo - k;
@@ -160,8 +160,8 @@ static void c04_cycle(int shard, int nshards, const hz::Args& a, hz::Result& r) 
 }
 
 static void c04_boundary(int shard, int nshards, const hz::Args& a, hz::Result& r) {
-  std::vector<long long> B = {INT64_MIN, INT64_MIN + 1, -(1LL << 62), -1, 0, 1, 12, 13, 28, 31, 32, 59, 60, 365, 366, 146097, 1LL << 62, INT64_MAX - 1, INT64_MAX};
-  if (a.thorough()) { const long long more[] = {29, 30, 61, 146096, 146098, -146097, -366}; for (long long m : more) B.push_back(m); }
+  std::vector<long long> B = {INT64_MIN, INT64_MIN + 1, -(1LL << 62), -146097, -366, -365, -1, 0, 1, 12, 13, 28, 31, 32, 59, 60, 365, 366, 146097, 1LL << 62, INT64_MAX - 1, INT64_MAX};
+  if (a.thorough()) { const long long more[] = {29, 30, 61, 146096, 146098, -364, -367}; for (long long m : more) B.push_back(m); }
   const size_t n = B.size();
   long long idx = 0;
   for (size_t i0 = 0; i0 < n; ++i0) for (size_t i1 = 0; i1 < n; ++i1) {
